@@ -286,6 +286,36 @@ theorem change_ok_partial (hsnap : SnapIdem F) (dt : DType F) (hwf : dt.WF) (j :
   rw [change_eq_accept hsnap dt hwf j held hheld] at h
   exact accept_denotes dt hwf j (some held) (fun p hp => by injection hp with hp; rw [← hp]; exact hheld) r h
 
+/-- the hypothesis `Shaped dt held` of the `change` theorems is an invariant of the parameter: it survives every driver
+update (accepted or refused) and every `change` request (accepted or refused) -/
+theorem held_shaped_step (dt : DType F) (hwf : dt.WF) (held : PVal F) (h : Shaped dt held) (ev : ParamEvent F) :
+    Shaped dt (holdStep dt held ev) := by
+  cases ev with
+  | update v =>
+    simp only [holdStep]
+    split
+    · rename_i r hr; exact shaped_of_call dt v r hr
+    · exact h
+  | change j =>
+    simp only [holdStep]
+    split
+    · rename_i r hr; exact shaped_of_inSet dt r (change_sound dt hwf j held r hr)
+    · exact h
+
+theorem held_shaped (dt : DType F) (hwf : dt.WF) (held : PVal F) (h : Shaped dt held) (evs : List (ParamEvent F)) :
+    Shaped dt (holdRun dt held evs) := by
+  unfold holdRun
+  induction evs generalizing held with
+  | nil => exact h
+  | cons ev evs ih => exact ih (holdStep dt held ev) (held_shaped_step dt hwf held h ev)
+
+/-- after ANY history of driver updates and change requests (starting from a shaped value, e.g. any value of the set
+or anything `__call__` returned) a `change` request obeys the clause - under `SnapIdem` -/
+theorem change_ok_always_partial (hsnap : SnapIdem F) (dt : DType F) (hwf : dt.WF) (held0 : PVal F)
+    (h0 : Shaped dt held0) (evs : List (ParamEvent F)) (j : JVal F) (r : PVal F)
+    (h : changeValue dt j (holdRun dt held0 evs) = .ok r) : ChangeOK dt j (some (holdRun dt held0 evs)) (.ok r) :=
+  change_ok_partial hsnap dt hwf j _ (held_shaped dt hwf held0 h0 evs) r h
+
 /-- a `do` request: the argument handed to the command function (`Command.do`, params.py:533-538: import, validate
 without `previous`) lies in the declared value set of the argument type and denotes the value offered - no hypothesis -/
 theorem command_argument_ok (dt : DType F) (hwf : dt.WF) (j : JVal F) (r : PVal F)
@@ -423,6 +453,23 @@ example : (match importValue exTree exWire with
         (judgeChange exTree exWire (some exPrev) none (.ok exResult)).contains "denotes:change"
     | _ => false) = true := by
   decide +kernel
+
+/-- a history on the example: a driver reports `b = 50` (outside the limits, accepted by `__call__`), a client changes
+`b`, then offers `exWire`: the invariant and the clause hold at the end -/
+example : ∃ r, changeValue exTree exWire
+      (holdRun exTree exPrev [.update exHeld, .change (.obj [("a", .arr []), ("b", .int 1), ("c", .int 0)])]) = .ok r ∧
+    ChangeOK exTree exWire
+      (some (holdRun exTree exPrev [.update exHeld, .change (.obj [("a", .arr []), ("b", .int 1), ("c", .int 0)])])) (.ok r) := by
+  cases h : changeValue exTree exWire
+      (holdRun exTree exPrev [.update exHeld, .change (.obj [("a", .arr []), ("b", .int 1), ("c", .int 0)])]) with
+  | error e =>
+    have hb : (match changeValue exTree exWire
+        (holdRun exTree exPrev [.update exHeld, .change (.obj [("a", .arr []), ("b", .int 1), ("c", .int 0)])]) with
+      | .ok _ => true
+      | _ => false) = true := by decide +kernel
+    rw [h] at hb; cases hb
+  | ok r =>
+    exact ⟨r, rfl, change_ok_always_partial rat_snapIdem exTree exTree_wf exPrev (shaped_of_inSet _ _ exPrev_inSet) _ _ r h⟩
 
 /-- `command_argument_ok` on the example: the complete struct offered as the argument of a command -/
 example : ∃ r, acceptWire exTree (.obj [("a", .arr [.int 3]), ("b", .int 1), ("c", .str "off")]) none = .ok r ∧
